@@ -38,7 +38,10 @@ def run(tier):
     srcs = [p["src"] for p in inputs.clean_programs(tier)] + [c["src"].decode("latin-1") for c in lexgen.cases(check, tier, rng)]
     srcs += [s.replace("\n", "\r\n") for s in srcs[:400]] + [s.replace("\n", "\r") for s in srcs[:200]]
     srcs = list(dict.fromkeys(srcs))
-    tasks = [{"op": "analyze", "src": s, "ver": v} for s in srcs for v in ("7.4", "5.6")]
+    # sources with tens of thousands of nodes: their positions come out of 1024-entry pool blocks
+    scaled = progs.scaled_sources(check, "5", core.seed(), 700 if tier == "quick" else 4000, (300,))
+    check.cov["scaled_sources_bytes"] = [len(x) for x in scaled]
+    tasks = [{"op": "analyze", "src": s, "ver": v, "limit_ms": 2000 + len(s) // 10} for s in srcs + scaled for v in ("7.4", "5.6")]
     ntrees = 0
     for t, r in zip(tasks, wp.run(tasks)):
         check.count()
